@@ -132,6 +132,7 @@ type c04op struct {
 	RK    string // range kind: arr slice ptr
 	Body  []*c04op
 	Fn    *c04fn
+	Unmodelled bool // rendered and interpreted, but outside the Coq grammar (the history gets no Coq case)
 	Sugar string // rendering variant of an assignment: "" | "inc" | "addassign"
 	// sugar operations (not in the Coq grammar): Go text plus the core operations they must equal
 	Text  []string
@@ -441,6 +442,16 @@ type S struct {
 }
 
 var keys = []string{"k0", "k1", "k2", "k3"}
+
+func (x S) Get() int   { return x.N }
+func (x S) SetN(n int) { x.N = n; x.A[0] = n }
+func (x *S) Inc()      { x.N++ }
+
+func fnr(y *S) (r S) {
+	r.N = 5
+	y.N = y.N + r.N
+	return r
+}
 
 func showLI(l []int) {
 	fmt.Print(" ", len(l), " ", cap(l))
